@@ -269,7 +269,7 @@ func c19use(p *Prog, r *Report) {
 						return false
 					}
 					fv, _ := fieldOf(lk.X)
-					return fv != nil && (fv.Name() == "ByID" || fv.Name() == "ByPubKey")
+					return fv != nil && (refName(fv) == "ByID" || refName(fv) == "ByPubKey")
 				}
 				g, _ := p.allPaths(c, []Pred{q}, all(1))
 				r.Check(g, rule, "WithNewPeer:no-duplicates", p.ipos(c), fnName(wnp), "a peer already in the set is not appended again (len(Peers) stays equal to Len())", "WithNewPeer can append a peer that is already present: len(Peers) != Len() and TrustCount's n > 1 test uses the wrong count")
